@@ -5,6 +5,7 @@ def get(pid):
         "C02": checks_net.C02,
         "C03": checks_net.C03,
         "C04net": checks_net.C04net,
+        "C04": checks_net.C04net,
         "C12": checks_net.C12,
     }
     return table[pid]()
